@@ -429,7 +429,10 @@ fn run(ctx: &mut Ctx) {
             chunk(ctx, &b);
         }
         // (iv) chunk lists: permutations, subsets, duplicates, payload mutations with valid CRCs
-        let dec: Vec<Chunk> = raw.iter().map(|c| Chunk::try_from(&c.encode()[..]).unwrap()).collect();
+        let dec: Vec<Chunk> = raw.iter().filter_map(|c| super::lib_chunk(ctx, &c.encode())).collect();
+        if dec.len() != raw.len() {
+            return;
+        }
         let tag = &payload[..payload.len().min(64)];
         pwb_chunks(ctx, &dec, tag);
         pwb_chunks(ctx, &[], tag);
@@ -440,7 +443,7 @@ fn run(ctx: &mut Ctx) {
             let k = r2.len() - 1;
             r2[k].payload.extend(last.payload);
             r2[k].flags = 1;
-            let mut l: Vec<Chunk> = r2.iter().map(|c| Chunk::try_from(&c.encode()[..]).unwrap()).collect();
+            let mut l: Vec<Chunk> = r2.iter().filter_map(|c| super::lib_chunk(ctx, &c.encode())).collect();
             pwb_chunks(ctx, &l, tag);
             l.reverse();
             pwb_chunks(ctx, &l, tag);
@@ -468,14 +471,18 @@ fn run(ctx: &mut Ctx) {
                     let mut r = raw[k].clone();
                     let j = rng.usize(r.payload.len());
                     r.payload[j] = *rng.pick(&VALS8);
-                    l[k] = Chunk::try_from(&r.encode()[..]).unwrap();
+                    if let Some(c) = super::lib_chunk(ctx, &r.encode()) {
+                        l[k] = c;
+                    }
                 }
                 _ => {
                     let k = rng.usize(raw.len());
                     let mut r = raw[k].clone();
                     r.chunk_id = *rng.pick(&[0u16, 1, 0x7FFF, 0xFFFE, 0xFFFF]);
                     r.flags = rng.below(2) as u8;
-                    l[k] = Chunk::try_from(&r.encode()[..]).unwrap();
+                    if let Some(c) = super::lib_chunk(ctx, &r.encode()) {
+                        l[k] = c;
+                    }
                 }
             }
             pwb_chunks(ctx, &l, tag);
@@ -529,7 +536,9 @@ fn run(ctx: &mut Ctx) {
             let mut c = proto.clone();
             c.chunk_id = k as u16; // wraps: ids repeat beyond 65535
             c.flags = (k + 1 == n) as u8;
-            list.push(Chunk::try_from(&c.encode()[..]).unwrap());
+            if let Some(c) = super::lib_chunk(ctx, &c.encode()) {
+                list.push(c);
+            }
         }
         if i % 4 >= 2 {
             rng.shuffle(&mut list);
